@@ -175,6 +175,11 @@ def run(tier, rng, C):
                     fail(c, 'py:as_dict-differs', 'Inventory.as_dict() differs from the attribute views', o)
                 elif parts.get('AGAIN') != 'T':
                     fail(c, 'py:view-not-fresh', 'after Python edited the dicts it received, the views of the inventory no longer show the rendered data', o)
+                else:
+                    ikeys = [unhx(t[1:]) for t in parts.get('KEYS', '').split(' ')[1:]]
+                    imissing = [k for k in ('__reclass__', 'applications', 'classes', 'nodes') if k not in ikeys]
+                    if imissing:
+                        fail(c, 'py:as_dict-differs', 'Inventory.as_dict() lacks %s' % imissing, o)
                 continue
             if ' ## ' not in o:
                 # the call did not come back with a Python-side and a Rust-side observation: a panic (PanicException),
